@@ -4,7 +4,7 @@ use crate::infra::td::*;
 use crate::infra::*;
 use serde_json::json;
 
-pub const RULE: &str = "digests over 4 scale functions x delta in {1.1,2,5,10,20,50,100,300,1000} x backlog in {0,1,10,1000} x 13 data families (7 smooth incl. sorted/reverse/sawtooth orders, 6 with heavy ties or density cliffs), reads interleaved at random positions; at checkpoints n in {1,2,10,100,...}: n_centroids <= delta+3, and for a grid of ~1200 q and ~700 x the rank error of quantile(q) / cdf(x) against the exact empirical CDF of all inserted values must be <= c*W + 2/n (c=1 smooth, 3 ties/cliffs, 15% guard band). non-trivial = digest that performed >= 1 fuse and was checked at n >= 100; distinct = (scale, delta, backlog, family, seed) tuples";
+pub const RULE: &str = "digests over 4 scale functions x delta in {1.1,2,5,10,20,50,100,300,1000} x backlog in {0,1,10,1000} x 13 data families (7 smooth incl. sorted/reverse/sawtooth orders, 6 with heavy ties or density cliffs), reads interleaved at random positions; at checkpoints n in {1,2,10,100,...}: n_centroids <= delta+3, and for a grid of ~1200 q and ~700 x the rank error of quantile(q) / cdf(x) against the exact empirical CDF of all inserted values must be <= c*W + 2/n (c=1 smooth, 3 ties/cliffs, 15% guard band). plus six very long sorted streams (6x10^7 quick, 3x10^8 thorough inserts, backlog 10^5) whose empirical CDF is known analytically: centroid bound and quantile accuracy at n = 10^6, 4x10^6, ... ; non-trivial = digest that performed >= 1 fuse and was checked at n >= 100; distinct = (scale, delta, backlog, family, seed) tuples";
 pub const ASSUMPTIONS: &[&str] = &[
     "value tolerance tau = 1e-9 * data range when locating quantile(q) in the empirical CDF (interpolation between equal means returns the tied value +- 1 ulp)",
     "K2/K3 accuracy is only checked for n >= delta, as stated",
@@ -154,7 +154,7 @@ fn item(ctx: &Ctx, i: usize, rep: &mut Report) {
     let delta = DELTAS[(i / 4) % 9];
     let backlog = BACKLOGS[(i / 36) % 4];
     let fams: Vec<Family> = SMOOTH.iter().chain(TIES.iter()).copied().collect();
-    let fam = fams[(i / 144 + i) % 13];
+    let fam = fams[(i / 144 + i) % 14];
     let n_max: usize = match ctx.tier {
         Tier::Quick => if i % 5 == 0 { 100_000 } else { 10_000 },
         Tier::Thorough => if i % 10 == 0 { 1_000_000 } else { 100_000 },
@@ -246,9 +246,74 @@ fn item(ctx: &Ctx, i: usize, rep: &mut Report) {
     }
 }
 
+/// very long sorted stream 0, 1, 2, ... (empirical CDF known analytically, nothing stored): the
+/// centroid bound must hold "however large n is"
+fn long_stream(ctx: &Ctx, j: usize, rep: &mut Report) {
+    let sf = [Sf::K2, Sf::K3, Sf::K2, Sf::K3, Sf::K0, Sf::K1][j % 6];
+    let delta = [100.0, 1000.0, 20.0, 100.0, 100.0, 100.0][j % 6];
+    let n: usize = ctx.tier.pick(60_000_000, 300_000_000);
+    let backlog = 100_000;
+    let label = format!("tdigest({},delta={},backlog={},sorted 0..{})", sf.name(), delta, backlog, n);
+    rep.config(&label);
+    let mut t = make_td(sf, delta, backlog);
+    let res = guarded(|| -> Result<(), (String, String)> {
+        let mut next_check = 1_000_000usize;
+        for i in 0..n {
+            t.insert(i as f64);
+            if i & 0xf_ffff == 0 {
+                beat();
+            }
+            if i + 1 == next_check || i + 1 == n {
+                next_check *= 4;
+                let cnt = (i + 1) as f64;
+                let nc = t.n_centroids();
+                if (nc as f64) > delta + 3.0 {
+                    return Err(("C04/too-many-centroids".into(), format!("n_centroids() = {} > delta + 3 = {} after {} sorted inserts", nc, delta + 3.0, i + 1)));
+                }
+                if let Some(w) = sf.width(delta, cnt) {
+                    let allowed = 1.15 * w + 2.0 / cnt;
+                    for k in 0..=1000 {
+                        let q = k as f64 / 1000.0;
+                        let x = t.quantile(q);
+                        // values 0..cnt-1: fraction of values <= x
+                        let lower = (x.ceil().clamp(0.0, cnt)) / cnt; // #values < x
+                        let upper = ((x.floor() + 1.0).clamp(0.0, cnt)) / cnt; // #values <= x
+                        let err = (lower - q).max(q - upper).max(0.0);
+                        if err > allowed {
+                            return Err(("C04/quantile-rank-error/smooth".into(), format!("quantile({}) = {:e} after {} sorted inserts: rank error {:.6} > {:.6}", q, x, i + 1, err, allowed)));
+                        }
+                    }
+                }
+            }
+        }
+        Ok(())
+    });
+    rep.evaluations += n as u64;
+    rep.count("inserts", n as u64);
+    rep.count("long_streams", 1);
+    rep.max("long_stream_centroids_minus_delta", t.n_centroids() as f64 - delta);
+    match res {
+        Ok(Ok(())) => {
+            let mut h = CaseHash::new(&label);
+            h.push(j as u64);
+            rep.nontrivial(h.0);
+        }
+        Ok(Err((sig, what))) => rep.violation(format!("{}/{}", sig, sf.name()), format!("{}: {}", label, what), json!({"scale": sf, "delta": delta, "backlog": backlog, "n": n, "stream": "sorted 0,1,2,..."})),
+        Err(msg) => rep.violation(format!("C04/panic/{}", panic_class(&msg)), format!("{}: panicked: {}", label, msg), json!({"scale": sf, "delta": delta})),
+    }
+}
+
 pub fn run(ctx: &Ctx) -> Report {
     let n = ctx.tier.pick(1872, 18_720);
-    let mut rep = par_run(ctx, n, |i, rep| item(ctx, i, rep));
+    let n_long = 6;
+    let mut rep = par_run(ctx, n + n_long, |i, rep| {
+        // long streams first (they run alongside the grid)
+        if i < n_long {
+            long_stream(ctx, i, rep)
+        } else {
+            item(ctx, i - n_long, rep)
+        }
+    });
     rep.require_events(&["TdMerge", "TdFuse", "TdQuantileLeft", "TdQuantileInterior", "TdQuantileRight", "TdCdfInterior", "TdCdfRightTail"]);
     rep
 }
